@@ -545,6 +545,25 @@ class Opts:
 
 WEIRD_CHARS = "ab \"'\\\n\t\r\x00\x01\x1f\x7f\u0085\u00a0\u00e9\u00ff\u0100\u2028\u2029\ufeff\ufffd\U0001F600{}$`%"
 
+# characters after which a following digit / hex digit / letter changes the meaning of a carelessly written
+# escape (octal \\0, \\x.., \\u.... written with too few digits), and characters no escape table lists
+_ESCAPE_SENSITIVE = ["\x00", "\x01", "\x07", "\x1b", "\x7f", "\x80", "\xff", "\u0100", "\u2028", "\ufeff", "\U0001F600",
+                     "\U000E0001", "\U000F0000", "\U0010FFFF", "\U0001FFFE", "\\"]
+_FOLLOWERS = list("0127890aAfFgxuUN{\"'")
+
+
+def _weird_str(draw: Any) -> str:
+    n = draw(st.integers(0, 6))
+    out = []  # type: List[str]
+    for _ in range(n):
+        if draw(st.integers(0, 3)) == 0:
+            # an escape-sensitive character immediately followed by a character that could be absorbed
+            out.append(draw(st.sampled_from(_ESCAPE_SENSITIVE)) + draw(st.sampled_from(_FOLLOWERS)))
+        else:
+            out.append(draw(st.sampled_from(list(WEIRD_CHARS))))
+    return "".join(out)
+
+
 _DEFAULTS = {"bool": ["True", "False"], "int": ["0", "3"], "str": ['"x"', '""'], "float": ["1.5", "0.0"]}
 
 PATTERN_EXAMPLES = {
@@ -654,7 +673,9 @@ def specs(draw: Any, opts: Opts = Opts()) -> Spec:
         lit_names = _names(draw, TYPE_WORDS, ["", "_x", "_2"], n_lit, set())
         vals = []  # type: List[str]
         for ln in lit_names:
-            if opts.adversarial_text and draw(st.booleans()):
+            if opts.adversarial_text and opts.weird_values and draw(st.integers(0, 3)) == 0:
+                v = _weird_str(draw) or "x"
+            elif opts.adversarial_text and draw(st.booleans()):
                 v = draw(st.text(alphabet=st.sampled_from(list("ab \"'\\<>&{}$`/*\u00e9\U0001F600-_.%")), min_size=1, max_size=6))
             else:
                 v = draw(st.sampled_from([ln, ln.upper().replace("_", "-"), ln.lower(), f"x:{ln}"]))
@@ -722,6 +743,8 @@ def specs(draw: Any, opts: Opts = Opts()) -> Spec:
                 if opts.weird_values:
                     pool += ["'", '"', "\\", "\n", "\t", "\u00e9", "\U0001F600", "{", "${x}", "a'b\"c", "\x00", "\x7f", "\u2028"]
                 vals = draw(st.lists(st.sampled_from(pool), min_size=1, max_size=4, unique=True))
+                if opts.weird_values and draw(st.booleans()):
+                    vals = list(dict.fromkeys(vals + [_weird_str(draw)]))
                 sup = []  # type: List[str]
                 if str_sets and draw(st.booleans()):
                     sub = draw(st.sampled_from(str_sets))
@@ -746,7 +769,7 @@ def specs(draw: Any, opts: Opts = Opts()) -> Spec:
                 enum_sets.append(c)
             elif kind == "str":
                 if opts.weird_values and draw(st.booleans()):
-                    v = draw(st.text(alphabet=st.sampled_from(list(WEIRD_CHARS)), max_size=8))
+                    v = _weird_str(draw)
                 else:
                     v = draw(st.sampled_from(["", "abc", "x y", "A-1", "\u00e9"]))
                 c = Const(nm, kind, v, doc=_plain_doc(draw, opts), positional=draw(st.booleans()))
